@@ -165,7 +165,7 @@ def file_text(refs, new_item, hash_length):
     return HEAD + "\n".join(lines) + "\n"
 
 
-def session_step(p, n, ra, rb, b_participates, new_item, fbits, hash_length):
+def session_step(p, n, ra, rb, b_participates, new_item, fbits, hash_length, review=False, answer=False):
     """pre-state invariant: a reference in a test file implies the data is persisted; never persisted and -new at once."""
     world.reset({})
     p = [True if x else False for x in p]
@@ -174,6 +174,12 @@ def session_step(p, n, ra, rb, b_participates, new_item, fbits, hash_length):
     rb = [True if x else False for x in rb]
     new_item = -1 if new_item < 0 else (0 if new_item == 0 else (1 if new_item == 1 else 2))
     flags = [name for name, b in zip(["create", "fix", "trim", "update"], fbits) if b]
+    review = True if review else False
+    answer = True if answer else False
+    cli_flags = flags + (["review"] if review else [])
+    if review and answer:
+        # every question is answered with yes: a category is approved if it is asked about (it has pending changes)
+        pass
     storage = {}
     pre = []
     for i in range(3):
@@ -190,7 +196,11 @@ def session_step(p, n, ra, rb, b_participates, new_item, fbits, hash_length):
     if b_participates:
         files["test_b.py"] = tb
     pyproject = f"[tool.inline-snapshot]\nhash-length={hash_length}\n"
-    r = world.plugin_session(files, cli=",".join(flags) if flags else "report", storage_files=storage, pyproject=pyproject)
+    r = world.plugin_session(files, cli=",".join(cli_flags) if cli_flags else "report", storage_files=storage, pyproject=pyproject, answers=[answer] * 4)
+    if review and answer:
+        # approved interactively: create is asked when the new outsourcing is pending; trim is never asked (no trim change)
+        if new_item >= 0 and "create" not in flags:
+            flags = flags + ["create"]
     if r.usage_error is not None or r.finish_error is not None:
         return False
     post = r.storage
@@ -261,14 +271,14 @@ def conditions(tier):
         for new_item in (-1, 0, 2):
             for bp in (False, True):
                 name = f"session_hl{hl}_new{new_item if new_item >= 0 else 'none'}_{'ab' if bp else 'a'}"
-                body = f"return session_step([p0, p1, p2], [n0, n1, n2], [ra0, ra1, ra2], [rb0, rb1, rb2], {bp}, {new_item}, [f0, f1, f2, f3], {hl})"
+                body = f"return session_step([p0, p1, p2], [n0, n1, n2], [ra0, ra1, ra2], [rb0, rb1, rb2], {bp}, {new_item}, [f0, f1, f2, f3], {hl}, review, answer)"
                 pre = [inv2, "not p2 and not n2 and not ra2 and not rb2" if q else "True", "not f1 and not f3"]
                 if hl == 2:
                     pre.append("not (ra1 and ra2) and not (rb1 and rb2) and not (p1 and p2) and not (p1 and n2) and not (n1 and p2) and not (n1 and n2)")  # an ambiguous 2-digit reference is a usage error of the project, not a history
-                fn = mkfn(name, PB + RB + FB, body, GLB, pre=pre)
+                fn = mkfn(name, PB + RB + FB + [("review", "bool"), ("answer", "bool")], body, GLB, pre=pre + ["review or not answer"])
                 conds.append(Cond(name, fn, timeout=1200, group="session",
                                   bounds=f"one real session (hooks in process) on a two-file project from every invariant-satisfying storage state; file b {'takes part' if bp else 'does not take part'}; "
-                                         f"{'no new outsourcing' if new_item < 0 else 'item %d outsourced into an empty snapshot' % new_item}; create/trim approved or not; hash-length {hl}{'; item 2 absent (quick)' if q else ''}"))
+                                         f"{'no new outsourcing' if new_item < 0 else 'item %d outsourced into an empty snapshot' % new_item}; create/trim approved by flag or not, review mode with all-yes / all-no answers; hash-length {hl}{'; item 2 absent (quick)' if q else ''}"))
     tw = mkfn("api_twin", PB + [("j", "int")], "return api_step([p0, p1, p2], [n0, n1, n2], 2, j, 12)", GLB, pre=[INV, "0 <= j <= 2 and n1"], post="not _")
     conds.append(Cond("api_twin", tw, timeout=60, twin=True))
     return conds
